@@ -86,8 +86,14 @@
     identities are the first values of ALL lines in order (two slots), `More()` ⇔ N > 2, `GetPAI 0 / 1` return them, nil
     beyond — also inside ParseHeaders blocks, whatever headers stand between the lines; `value_nonempty`: whenever
     ParseNameAddrPVal says OK / "more values" the reported value V has at least one byte (every input).
-  NOT proved here (oracle / correspondence only): the splitting converse for resumed calls (one-call statements; C02
-  transfers them); commas inside parameter names / unquoted values for From / To in
+  The converse over EVERY CHUNK SCHEDULE (`Sipsp.Proofs.ResumedConverse`): `value_ends_at_first_top_comma_schedule`,
+  `value_ok_no_top_comma_schedule`, `single_valued_never_more_values_schedule`, `contact_list_converse_schedule`,
+  `pai_list_converse_schedule`, `*_list_segments_schedule`: a chain of resumed calls over growing prefixes ends in the
+  triple of one call on the last prefix, so every statement above holds for it; and, new for every input, WHICH values
+  each line contributes: `line_lists` (an accepted Contact / PAI line hands the list exactly the value parser's reports
+  for the pieces of the text after the colon cut at its top-level commas; any other line leaves both lists unchanged),
+  `block_lists`, `msg_lists(_init)`, and the same after every chunk schedule (`*_lists_schedule*`).
+  NOT proved here (oracle / correspondence only): chains whose first call starts inside a value; commas inside parameter names / unquoted values for From / To in
   general (ordinary bytes, except that a leading comma is dropped); the partial object left behind by the
   parameter-level rejections; value lists whose values use the trailing-";" / junk-after-">" shapes; stored values of
   several PAI lines (only the counters).  Model tied to parse_from.go / parse_contact.go / parse_pai.go by the
@@ -98,6 +104,7 @@ import Sipsp.Proofs.NameAddrSpec2
 import Sipsp.Proofs.HdrTyped
 import Sipsp.Proofs.NaSplit
 import Sipsp.Proofs.PaiLines
+import Sipsp.Proofs.ResumedConverse
 
 namespace Sipsp.C09
 open Sipsp
@@ -594,5 +601,97 @@ theorem block_pais : type_of% @Sipsp.HtBlock.pl_pais := @Sipsp.HtBlock.pl_pais
     "more values", the reported value span `V` has at least one byte — every header kind, EVERY input within the
     65,535-byte limit -/
 theorem value_nonempty : type_of% @Sipsp.pn_value_nonempty := @Sipsp.pn_value_nonempty
+
+/-! ### the splitting converse over every chunk schedule; which values each Contact / PAI line of a block / message contributes (proved in `Sipsp.Proofs.ResumedConverse`) -/
+
+/-- **(2a) `value_ends_at_first_top_comma` over EVERY chunk schedule**: if the chain of resumed calls of
+    ParseNameAddrPVal (new object; the buffers `l` are growing prefixes, the last one is `B`) ends with "more values" at
+    `o'`, then in the WHOLE buffer `B`: the kind has several values, the byte before `o'` is a comma at top level of the
+    text that starts at `o`, and no top-level comma occurs before it; the object is the one ONE call on `B` reports -/
+theorem value_ends_at_first_top_comma_schedule : type_of% @Sipsp.rc_value_more_schedule := @Sipsp.rc_value_more_schedule
+
+/-- **(2b) `value_ok_no_top_comma` over EVERY chunk schedule**: the chain ends with OK at `o'` ⇒ in the whole buffer
+    `o'` follows a line end not followed by SP / HT and (kinds with several values) no top-level comma occurs in
+    `[o, o')`; the object is the one ONE call on `B` reports -/
+theorem value_ok_no_top_comma_schedule : type_of% @Sipsp.rc_value_ok_schedule := @Sipsp.rc_value_ok_schedule
+
+/-- a kind with a single value never answers "more values", also at the end of a chain of resumed calls -/
+theorem single_valued_never_more_values_schedule : type_of% @Sipsp.rc_single_never_more_schedule := @Sipsp.rc_single_never_more_schedule
+
+/-- **(1) `contact_list_converse` over EVERY chunk schedule.**  `l` = growing prefixes of the buffer `B` (its last
+    element), `B` within the 65,535-byte limit, a new contacts object over a cleared array of ANY capacity `cap`, start
+    offset inside the first chunk.  If the LAST call of the chain of resumed calls answers OK at `o'` with object `c'`,
+    then `c'` is the object of ONE call on `B`, and in `B` there is a list `L` of pieces (start, reported value):
+    the value text is cut at exactly its top-level commas (`NsSegs`), every reported `V` lies inside its piece and starts
+    at its first non-white-space byte, `N` = number of pieces = 1 + number of top-level commas of `[o, o')`, the stored
+    values are the reports for the first `cap` pieces in order, max / min expires range over ALL pieces. -/
+theorem contact_list_converse_schedule : type_of% @Sipsp.rc_contact_list_converse_schedule := @Sipsp.rc_contact_list_converse_schedule
+
+/-- **(1) `pai_list_converse` over EVERY chunk schedule** (two slots; `N` counts all pieces; no accepted value is `*`) -/
+theorem pai_list_converse_schedule : type_of% @Sipsp.rc_pai_list_converse_schedule := @Sipsp.rc_pai_list_converse_schedule
+
+/-- the segments and the count alone (no size limit on the buffer) -/
+theorem contact_list_segments_schedule : type_of% @Sipsp.rc_contact_list_segments_schedule := @Sipsp.rc_contact_list_segments_schedule
+
+theorem pai_list_segments_schedule : type_of% @Sipsp.rc_pai_list_segments_schedule := @Sipsp.rc_pai_list_segments_schedule
+
+/-- **ONE call of ParseHdrLine, new header object, values object whose two lists are between lines (`HtReady`; a new
+    values object qualifies), EVERY input within the 65,535-byte limit**: an accepted line has a name and type that are
+    right (`HsNameAt`) and did to the two value lists what `RcLine` says -/
+theorem line_lists : type_of% @Sipsp.rc_line_lists := @Sipsp.rc_line_lists
+
+/-- **ONE call of ParseHeaders, a values object whose two lists are between lines, EVERY input ≤ 65,535 bytes**: if
+    the verdict is OK (or "empty") the accepted text is a chain of lines, each with the right name and type, and for
+    every Contact / P-Asserted-Identity line the values handed to the list object are exactly the value parser's
+    reports for the pieces of that line's value (cut at its top-level commas); the other lines leave both lists alone -/
+theorem block_lists : type_of% @Sipsp.rc_block_lists := @Sipsp.rc_block_lists
+
+/-- **ONE call of ParseSIPMsg from the initial state** (header list in the state of a new one, nothing counted yet, the two value
+    lists between lines; EVERY input ≤ 65,535 bytes): if the call ends OK, the first line ended at `o1` and the header block
+    `[o1, e)` is a chain of accepted lines in which every Contact / P-Asserted-Identity line handed exactly the pieces of
+    its value to the list objects found in the final message object -/
+theorem msg_lists : type_of% @Sipsp.rc_msg_lists := @Sipsp.rc_msg_lists
+
+/-- **(3) ONE call of ParseSIPMsg on an object produced by Init** (any previous contents, caller arrays of any capacity
+    or none), EVERY input ≤ 65,535 bytes: if the call ends OK there are the end `o1` of the first line, the end `e` of the
+    header block, the reported headers `hs` (at least one) and for every header line what it was for the value lists
+    (`RcBlock`): every Contact / P-Asserted-Identity line handed to the list exactly the value parser's reports for the
+    pieces of its value, cut at the top-level commas; the final contacts / identities objects are the NEW ones after
+    exactly these lines, in order (`htLines`; so `ht_htLines_n`, `ht_htLines_stored`, `ht_htLines_maxE / _minE`,
+    `pl_lines_stored`, `pl_lines_getPAI` read them off) -/
+theorem msg_lists_init : type_of% @Sipsp.rc_msg_lists_init := @Sipsp.rc_msg_lists_init
+
+/-- **(3) ParseHdrLine over EVERY chunk schedule** (new header object; a values object that is legitimate at `o` and
+    whose two lists are between lines — a new one of any capacity qualifies: `rc_newHv_ok`): if the chain of resumed
+    calls ends OK at `e`, then in the WHOLE buffer `B` the line has a name and a type that are right, and
+    * if it is a Contact (P-Asserted-Identity) line, the text after the colon is cut at exactly its top-level commas and
+      the values handed to the list object are the value parser's reports for the pieces, in order (`RcLine`),
+    * otherwise both lists are exactly as before —
+    wherever the calls were suspended: inside the name, a quoted string, a URI, a parameter, the line end. -/
+theorem line_lists_schedule : type_of% @Sipsp.rc_line_lists_schedule := @Sipsp.rc_line_lists_schedule
+
+/-- **(3) ParseHeaders over EVERY chunk schedule, new header list of any capacity `kh`, new values object with a
+    contact array of any capacity `kc`**: if the chain of resumed calls ends OK at `e`, then in the WHOLE buffer `B` the
+    accepted text is a chain of lines (`RcBlock`): for each Contact / P-Asserted-Identity line the values handed to the
+    list are exactly the value parser's reports for the pieces of the line's value (cut at its top-level commas, in
+    order), all other lines leave the lists alone; hence (`RcBlock.lists`) the final contacts / identities objects are
+    the new ones after exactly these lines; the header list is what accepting the reported headers produces. -/
+theorem block_lists_schedule : type_of% @Sipsp.rc_block_lists_schedule := @Sipsp.rc_block_lists_schedule
+
+/-- **(3) ParseSIPMsg from Init over EVERY chunk schedule** (growing prefixes within the 65,535-byte limit, every flag
+    word, every capacity): if the chain of resumed calls ends OK, the statement of `rc_msg_lists_init` holds for the final
+    message object, in the buffer `b` of the call that finished — a prefix of the whole buffer `B`, so every byte and
+    every span of `b` is one of `B` -/
+theorem msg_lists_schedule_init : type_of% @Sipsp.rc_msg_lists_schedule_init := @Sipsp.rc_msg_lists_schedule_init
+
+/-- **(3) ParseSIPMsg from Init over EVERY chunk schedule, stated in the WHOLE buffer `B`** (the last element of the
+    growing list `l`; every chunk within the 65,535-byte limit, every flag word, caller arrays of any capacity or none):
+    if the chain of resumed calls ends OK with the object `m'`, there are the reported headers `hs` (at least one) and,
+    line by line, what each accepted header line of `B` was for the value lists (`RcBlock B …`): every Contact /
+    P-Asserted-Identity line handed to its list exactly the value parser's reports for the pieces of its value, cut at
+    its top-level commas, in order; every other line left both lists alone; the contacts / identities of `m'` are the
+    NEW objects after exactly these lines (`htLines` of the piece values), and the header list of `m'` is what accepting
+    `hs` produces. -/
+theorem msg_lists_schedule_whole : type_of% @Sipsp.rc_msg_lists_schedule_whole := @Sipsp.rc_msg_lists_schedule_whole
 
 end Sipsp.C09
